@@ -672,6 +672,13 @@ func (db *DB) searchAll(o Object, field, operator string, value interface{}, con
 		return &Search{db: db, err: err}
 	}
 
+	// arguments are validated before going through the collection so that
+	// the outcome is the same as for an indexed field and does not depend
+	// on the objects stored
+	if err = checkSearchArgs(o, field, operator, search); err != nil {
+		return &Search{db: db, err: err}
+	}
+
 	// building up the iterator out of constrain
 	if constrain != nil {
 		uuids := make([]string, 0, len(constrain))
@@ -722,6 +729,39 @@ func (db *DB) searchAll(o Object, field, operator string, value interface{}, con
 
 	return newSearch(db, o, f, err)
 
+}
+
+// checkSearchArgs validates the arguments of a search on a non indexed field
+func checkSearchArgs(o Object, field, operator string, search *indexedField) (err error) {
+	var value interface{}
+	var test *indexedField
+	var ok bool
+
+	switch operator {
+	case "=", "!=", ">", ">=", "<", "<=", "~=":
+	default:
+		return fmt.Errorf("%w %s", ErrUnkownSearchOperator, operator)
+	}
+
+	if value, ok = fieldByName(o, fieldPath(field)); !ok {
+		return fmt.Errorf("%w %s", ErrUnkownField, field)
+	}
+
+	if test, err = newIndexedField(value, 0); err != nil {
+		return
+	}
+
+	if fieldType := test.valueTypeString(); fieldType != search.valueTypeString() {
+		return fmt.Errorf("%w, cannot cast %T(%v) to %s", ErrCasting, search.Value, search.Value, fieldType)
+	}
+
+	if pattern, ok := search.Value.(string); ok && operator == "~=" {
+		if _, err = regexp.Compile(pattern); err != nil {
+			return
+		}
+	}
+
+	return
 }
 
 // Search Object where field matches value according to an operator
